@@ -79,6 +79,88 @@ def candidates(case):
         yield c
 
 
+# ---- dense time ---------------------------------------------------------
+
+from fractions import Fraction                                   # noqa: E402
+from ..dense import (DENSE, ct_cases, case_q, to_time, norm_signals, dense_text, check_shape, ct_candidates)  # noqa: E402
+from ..monitors import run_ct_off                                 # noqa: E402
+from ..refsem import step_at                                      # noqa: E402
+
+DENSE_NOUNB = DENSE.copy(un_temp=('once', 'historically'), bin_temp=('since',), tbin=('since', 'until'), max_bound=6)
+
+
+@st.composite
+def dense_cases(draw, tier):
+    p = DENSE_NOUNB if tier == 'quick' else DENSE_NOUNB.copy(max_depth=4)
+    c = draw(ct_cases(p, tier, max_samples=7, min_samples=2))
+    kend = min(s[-1][0] for s in c['signals'].values())
+    c['cut'] = draw(st.integers(1, max(1, kend)))
+    return c
+
+
+def restrict(sig, T):
+    """The signal on [start, T]: samples before T plus a sample at T carrying the value the signal has there."""
+    out = {}
+    for v, s in sig.items():
+        head = [(k, x) for k, x in s if k < T]
+        val = [x for k, x in s if k <= T][-1]
+        out[v] = head + [(T, val)]
+    return out
+
+
+def check_dense(case):
+    f = from_json(case['formula'])
+    vs = list(case['vars'])
+    q = case_q(case)
+    sig = norm_signals(case)
+    used = F.fvars(f)
+    labels = ['dense'] + feature_labels(f)
+    if not used:
+        return DISCARD('no-variable', labels)
+    sig = {v: sig[v] for v in vs if v in used}
+    feed = list(sig)
+    h = F.horizon(f)
+    T = case['cut']
+    kend = min(s[-1][0] for s in sig.values())
+    if not (1 <= T <= kend):
+        return DISCARD('bad-cut', labels)
+    text = dense_text(f, q)
+    w1 = restrict(sig, T)
+    o2 = run_ct_off(text, feed, to_time(sig, q))
+    o1 = run_ct_off(text, feed, to_time(w1, q))
+    if o1[0] != 'ok' or o2[0] != 'ok' or check_shape(o1[1]) or check_shape(o2[1]):
+        return DISCARD('exception-or-shape(C04/C17)', labels)
+    tol = needs_tolerance(f)
+    compared = 0
+    k2 = 0
+    while Fraction(k2, 2) + h < T:
+        t = float(Fraction(k2, 2) * q)
+        a, b = step_at(o1[1], t), step_at(o2[1], t)
+        compared += 1
+        if a is None or b is None or not same(a, b, tol):
+            return FAIL('unstable-dense:h=%s' % ('0' if h == 0 else '>0'),
+                        'spec: %s   (horizon %g)\nw2: %s\nw1 = w2 on [0, %g]: %s\nevaluate(w1): %r\nevaluate(w2): %r\nat t=%g: %r vs %r' % (
+                            text, float(h * q), to_time(sig, q), float(T * q), to_time(w1, q), o1[1], o2[1], t, a, b), labels)
+        k2 += 1
+    differs_later = o1[1] != o2[1]
+    return PASS(compared >= 2 and differs_later and F.n_temporal(f) >= 1, labels)
+
+
+def dense_candidates(case):
+    for c in ct_candidates(case):
+        kend = min(s[-1][0] for s in c['signals'].values())
+        if kend < 1:
+            continue
+        c = dict(c)
+        c['cut'] = min(case['cut'], kend)
+        yield c
+    if case['cut'] > 1:
+        c = dict(case)
+        c['cut'] = case['cut'] - 1
+        yield c
+
+
 LANES = [
     Lane('discrete', lambda tier: cases(tier), check, 6000, 80000, candidates),
+    Lane('dense', lambda tier: dense_cases(tier), check_dense, 3000, 40000, dense_candidates),
 ]
